@@ -142,8 +142,9 @@ func (p c15) Run(c *core.Ctx) {
 			in, class = gen.SplitBytesMarkup(r), "characters-split-over-nomarkup-sections"
 		case 0:
 			in, class = gen.HostileMarkup(r), "hostile"
-			if c.Thorough() && r.Chance(1, 4) {
-				in = gen.HostileMarkupN(r, 40, 256) // longer assemblies in the thorough tier
+			if r.Chance(1, 8) || c.Thorough() && r.Chance(1, 4) {
+				in = gen.HostileMarkupN(r, 40, 400) // longer assemblies: replacement markers that expand, then more markers
+				c.Feature("long-hostile-assemblies")
 			}
 		case 1:
 			in, class = gen.Truncation(r), "truncation"
